@@ -139,7 +139,7 @@ package memory
 //@ func (*batch).Delete
 //@   props C15
 //@   arith int
-//@   requires b != nil && b.size < 1<<60 && len(key) < 1<<40
+//@   requires b != nil
 //@   requires open_has_overlay: b.db != nil ==> b.writeMap != nil
 //@   modifies b.writes, b.size, b.writes[len(b.writes)..cap(b.writes)]
 //@   modifies maps
@@ -147,3 +147,33 @@ package memory
 //@   ensures appended: old(b.db) != nil ==> result == nil && len(b.writes) == old(len(b.writes)) + 1 && b.writes[len(b.writes)-1].key == string(key) && b.writes[len(b.writes)-1].delete
 //@   ensures earlier_kept: old(b.db) != nil ==> (forall j int :: 0 <= j && j < old(len(b.writes)) ==> b.writes[j] == old(b.writes[j]))
 //@   ensures overlay: old(b.db) != nil ==> in(b.writeMap, string(key)) && b.writeMap[string(key)] == b.writes[len(b.writes)-1] && (forall k string :: k != string(key) ==> ((in(b.writeMap, k) <==> old(in(b.writeMap, k))) && b.writeMap[k] == old(b.writeMap[k])))
+
+// DeleteRange on a batch stages deletions like Delete does: it applies nothing to the database
+// (the range delete takes effect, or not, with the batch's Write).
+//@ func (*Database).DeleteRange
+//@   trusted
+//@   logged as DbDeleteRange
+//@ func (*Database).Delete
+//@   trusted
+//@   logged as DbDelete
+//@ func (*Database).Put
+//@   trusted
+//@   logged as DbPut
+//@ func (*batch).NewIterator
+//@   trusted
+//@   ensures result1 == nil ==> result0 != nil
+//@ extern func github.com/NethermindEth/juno/db.Iterator.Close
+//@ extern func github.com/NethermindEth/juno/db.Iterator.Seek
+//@ extern func github.com/NethermindEth/juno/db.Iterator.Next
+//@ extern func github.com/NethermindEth/juno/db.Iterator.Key
+//@ func (*batch).DeleteRange
+//@   props C05, C15
+//@   arith int
+//@   nosafe
+//@   requires b != nil
+//@   requires open_has_overlay: b.db != nil ==> b.writeMap != nil
+//@   modifies *
+//@   loop 1: invariant still_open: b.db != nil && b.writeMap != nil
+//@   loop 1: invariant nothing_applied_so_far: calls_DbDeleteRange == old(calls_DbDeleteRange) && calls_DbDelete == old(calls_DbDelete) && calls_DbPut == old(calls_DbPut)
+//@   ensures closed: old(b.db) == nil ==> result == errBatchClosed
+//@   ensures staged_not_applied: calls_DbDeleteRange == old(calls_DbDeleteRange) && calls_DbDelete == old(calls_DbDelete) && calls_DbPut == old(calls_DbPut)
